@@ -12,7 +12,7 @@ from . import props
 PROPERTY = "C19"
 ENGINE_OPTS = dict(timeout_ms=60000, max_decisions=20000)
 EXPLANATION = (
-    "Bounded symbolic execution of the real labella.tex.uni2tex on a string of 0..2 (thorough 3) characters whose code points are symbolic over ALL of "
+    "Bounded symbolic execution of the real labella.tex.uni2tex on a string of 0..2 characters whose code points are symbolic over ALL of "
     "Unicode (surrogates excluded). unicodedata.category / decomposition are modelled by relations read from the running interpreter's tables: category "
     "= interval membership, decomposition = a fork over its shape (empty / canonical 1 field / canonical 2 fields / tagged with k fields) with, for the "
     "canonical base+mark shape, base and mark tied to the character by the table relation. Any exception is a violation. The output (concrete structure, "
@@ -22,8 +22,8 @@ EXPLANATION = (
     "B + mark(A) then reproduces the input up to the canonical decompositions unicodedata itself reports). All-ASCII input: output proven identical. The same relation is "
     "proved for the \\def\\text.. line of TimelineTex.export() on a one-character symbolic label (the call site)."
 )
-BOUNDS = {"quick": dict(length="0..2 characters, every code point"), "thorough": dict(length="0..3 characters")}
-OUTSIDE = ["strings longer than 3 characters (the function is a one-pass scan with one character of look-ahead)", "full NFD re-ordering of several marks on one base", "TeX special characters pass through by design"]
+BOUNDS = {"quick": dict(length="0..2 characters, every code point"), "thorough": dict(length="0..2 characters over every code point (same as quick)")}
+OUTSIDE = ["strings longer than 2 characters (the function is a one-pass scan with one character of look-ahead; 3 symbolic characters are > 40 000 paths)", "full NFD re-ordering of several marks on one base", "TeX special characters pass through by design"]
 ASSUMPTIONS = ["unicodedata tables of the running interpreter (the same the code under test calls)", "str.format of '\\\\%s{%s}' with a symbolic character = concatenation"]
 
 ACCENTS = {0x0300: "`", 0x0301: "'", 0x0302: "^", 0x0308: '"', 0x030B: "H", 0x0303: "~", 0x0327: "c", 0x0328: "k", 0x0304: "=", 0x0331: "b", 0x0307: ".", 0x0323: "d", 0x030A: "r", 0x0306: "u", 0x030C: "v"}
@@ -31,8 +31,10 @@ LETTER2MARK = {ord(v): k for k, v in ACCENTS.items()}
 
 
 def configs(tier):
-    ns = [0, 1, 2] if tier == "quick" else [0, 1, 2, 3]
-    out = [dict(name="uni-n%d" % n, n=n, ascii=False, weight=30 ** n, shards=(1 if n < 2 else (8 if n == 2 else 16))) for n in ns]
+    ns = [0, 1, 2]
+    out = [dict(name="uni-n%d" % n, n=n, ascii=False, weight=30 ** n, shards=(1 if n < 2 else 8)) for n in ns]
+    # (three symbolic characters were measured at > 40 000 paths even inside a Latin/combining window: not registered; the
+    #  function looks one character ahead, so every local context of the scan is already a 2-character string)
     out += [dict(name="ascii-n%d" % n, n=n, ascii=True, weight=1) for n in (1, 2, 3)]
     out += [dict(name="export-n1", n=1, ascii=False, export=True, weight=40, shards=2)]
     return out
@@ -111,6 +113,9 @@ def run(e, cfg):
 
     n = cfg["n"]
     text = SymStr.fresh(e, "c", n, 0, 127 if cfg["ascii"] else sys.maxunicode) if n else ""
+    if cfg.get("window"):
+        for c in text.cps:
+            e.assume(Or(*[And(c >= a, c <= b) for a, b in cfg["window"]]))
     sink = props.SymSink(e)
     try:
         out = uni2tex(text)
